@@ -41,6 +41,13 @@ impl Codec {
             return Err(Error::ClientError("Message too large to read".into()));
         }
 
+        // A message is never shorter than its header
+        if length < crate::diameter::HEADER_LENGTH {
+            return Err(Error::DecodeError(
+                "invalid diameter message, length is shorter than the header".into(),
+            ));
+        }
+
         // Read the rest of the message
         let mut buffer = Vec::with_capacity(length as usize);
         buffer.extend_from_slice(&b);
